@@ -12,6 +12,10 @@ debugging-information-entry parser (property C04) consults, read from the LIVE o
   gen_form_raw2name : list (Z * string)        DW_FORM_raw2name (int keys)
   gen_abbrev_*                                 shape of Dwarf_abbrev_declaration
   gen_cu_* / gen_tu_header / gen_initlen_*     unit header layouts (v2-4, the six v5 kinds, v4 type unit)
+  gen_cu_sibling_* / gen_tu_sibling_* / gen_die_ref_* / gen_translate_*
+        the tuples of form names written inline in iter_DIE_children (compileunit.py, typeunit.py),
+        DIE.get_DIE_from_attribute and DIE._translate_attr_value, read from the source of the live functions with
+        `ast` (comparisons `x.form in (...)`, `x.form == '...'`, `form in (...)`); any other shape raises
 
 Lambdas (If / IfThenElse / Switch key functions, PrefixedArray counts, RepeatUntil predicates) are
 identified by probing them on concrete contexts.  Fail closed: any construct or shape that is not
@@ -250,6 +254,74 @@ def abbrev_decl(s):
                 value=desc(val.cases[True]), value_forms=value_forms, stop=stops[0])
 
 
+
+# ------------------------------------------------------------------ form-name sets written inline in the code (AST)
+def _src_function(module, qualname):
+    """the ast.FunctionDef of Class.method in a live module (source read through inspect)"""
+    import ast, inspect, textwrap
+    obj = module
+    for part in qualname.split('.'):
+        obj = getattr(obj, part)
+    tree = ast.parse(textwrap.dedent(inspect.getsource(obj)))
+    _need(len(tree.body) == 1 and isinstance(tree.body[0], ast.FunctionDef), 'source of %s' % qualname)
+    return tree.body[0]
+
+
+def _str_const(n):
+    import ast
+    _need(isinstance(n, ast.Constant) and isinstance(n.value, str), 'string constant expected in a form test')
+    return n.value
+
+
+def _form_tests(fn, is_left):
+    """all comparisons `<left> in (names...)`, `<left> in 'name'`, `<left> == 'name'` of a function, in source order:
+    [('in', [names]) | ('substr', name) | ('eq', name)]"""
+    import ast
+    found = []
+    for node in ast.walk(fn):
+        if isinstance(node, ast.Compare) and is_left(node.left):
+            _need(len(node.ops) == 1 and len(node.comparators) == 1, 'chained comparison in a form test')
+            op, rhs = node.ops[0], node.comparators[0]
+            if isinstance(op, ast.In) and isinstance(rhs, ast.Tuple):
+                found.append((node.lineno, node.col_offset, ('in', [_str_const(e) for e in rhs.elts])))
+            elif isinstance(op, ast.In):
+                found.append((node.lineno, node.col_offset, ('substr', _str_const(rhs))))
+            elif isinstance(op, ast.Eq):
+                found.append((node.lineno, node.col_offset, ('eq', _str_const(rhs))))
+            else:
+                raise Unsupported('form test with operator %s' % type(op).__name__)
+    return [t for _, _, t in sorted(found)]
+
+
+def form_name_sets():
+    """the tuples of form names tested by iter_DIE_children (CU and TU copies), get_DIE_from_attribute and
+    _translate_attr_value"""
+    import ast
+    from elftools.dwarf import compileunit, typeunit, die
+    res = {}
+    is_attr = lambda var: (lambda n: isinstance(n, ast.Attribute) and n.attr == 'form'
+                           and isinstance(n.value, ast.Name) and n.value.id == var)
+    for key, mod, qn in (('cu', compileunit, 'CompileUnit.iter_DIE_children'), ('tu', typeunit, 'TypeUnit.iter_DIE_children')):
+        tests = _form_tests(_src_function(mod, qn), is_attr('sibling'))
+        _need([k for k, _ in tests] == ['in', 'eq'], '%s: shape of the DW_AT_sibling form tests %r' % (qn, tests))
+        res[key + '_sibling_unit'] = tests[0][1]
+        res[key + '_sibling_addr'] = tests[1][1]
+    tests = _form_tests(_src_function(die, 'DIE.get_DIE_from_attribute'), is_attr('attr'))
+    _need([k for k, _ in tests] == ['in', 'substr', 'substr', 'in'], 'get_DIE_from_attribute: shape of the form tests %r' % (tests,))
+    res['die_ref_unit'], res['die_ref_addr'], res['die_ref_sig8'], res['die_ref_sup'] = [t[1] for t in tests]
+    tests = _form_tests(_src_function(die, 'DIE._translate_attr_value'),
+                        lambda n: isinstance(n, ast.Name) and n.id == 'form')
+    chain = [[v] if k == 'eq' else v for k, v in tests]
+    _need(all(k in ('eq', 'in') for k, _ in tests), '_translate_attr_value: substring form test')
+    addrx = [c for c in chain if 'DW_FORM_addrx' in c]
+    strx = [c for c in chain if 'DW_FORM_strx' in c]
+    _need(len(addrx) == 1 and len(strx) == 1, '_translate_attr_value: addrx/strx tuples')
+    res['translate_chain'] = chain
+    res['translate_addrx'] = addrx[0]
+    res['translate_strx'] = strx[0]
+    return res
+
+
 def cfgname(le, fmt, asz, ver):
     return '%s_%d_%d_v%d' % ('LE' if le else 'BE', fmt, asz, ver)
 
@@ -340,4 +412,21 @@ def generate():
     by_cfg('gen_cu_header_ge5', 'list (string * list (string * fdesc))',
            lambda ht: lst(['(%s, %s)' % (string(k), fields_coq(fl)) for k, fl in ht[0]['cases']], per_line=1, indent='      '))
     by_cfg('gen_tu_header', 'list (string * fdesc)', lambda ht: fields_coq(ht[1][1]))
+    # ---- form-name sets tested inline by the tree walk, reference resolution and value translation
+    ns = form_name_sets()
+    sl = lambda names: lst([string(n) for n in names], per_line=0)
+    out.append('(* `sibling.form in (...)` / `sibling.form == ...` of CompileUnit.iter_DIE_children and TypeUnit.iter_DIE_children *)')
+    out.append('Definition gen_cu_sibling_unit_forms : list string := %s.' % sl(ns['cu_sibling_unit']))
+    out.append('Definition gen_cu_sibling_addr_form : string := %s.' % string(ns['cu_sibling_addr']))
+    out.append('Definition gen_tu_sibling_unit_forms : list string := %s.' % sl(ns['tu_sibling_unit']))
+    out.append('Definition gen_tu_sibling_addr_form : string := %s.' % string(ns['tu_sibling_addr']))
+    out.append('(* `attr.form in ...` tests of DIE.get_DIE_from_attribute, in order (the 2nd and 3rd are `in` on a plain string) *)')
+    out.append('Definition gen_die_ref_unit_forms : list string := %s.' % sl(ns['die_ref_unit']))
+    out.append('Definition gen_die_ref_addr_pattern : string := %s.' % string(ns['die_ref_addr']))
+    out.append('Definition gen_die_ref_sig8_pattern : string := %s.' % string(ns['die_ref_sig8']))
+    out.append('Definition gen_die_ref_sup_forms : list string := %s.' % sl(ns['die_ref_sup']))
+    out.append('(* `form == ...` / `form in (...)` tests of DIE._translate_attr_value, in order *)')
+    out.append('Definition gen_translate_chain : list (list string) := %s.' % lst([sl(c) for c in ns['translate_chain']], per_line=1))
+    out.append('Definition gen_translate_addrx_forms : list string := %s.' % sl(ns['translate_addrx']))
+    out.append('Definition gen_translate_strx_forms : list string := %s.\n' % sl(ns['translate_strx']))
     return {'C04Forms.v': '\n'.join(out) + '\n'}
